@@ -10,7 +10,10 @@ import (
 	"time"
 
 	sdns "github.com/bokysan/socketace/v2/internal/streams/dns"
+	"github.com/bokysan/socketace/v2/internal/streams/dns/commands"
+	dnsutil "github.com/bokysan/socketace/v2/internal/streams/dns/util"
 	mdns "github.com/miekg/dns"
+	"golang.org/x/net/dns/dnsmessage"
 )
 
 func init() { Scenarios["C12"] = scenarioC12 }
@@ -138,7 +141,24 @@ func genAnswer(c *Chooser, orig *mdns.Msg) (*mdns.Msg, string) {
 	hdr := func(t uint16) mdns.RR_Header {
 		return mdns.RR_Header{Name: name, Rrtype: t, Class: mdns.ClassINET, Ttl: 1}
 	}
-	switch c.Pick(14, "answer-kind") {
+	switch c.Pick(17, "answer-kind") {
+	case 14, 15, 16:
+		// a correctly wrapped payload of another command: command letter (either case) + sub-letter + body;
+		// the client asked something else and may not have the parameters this command's decoder expects
+		if len(orig.Question) > 0 {
+			letters := "vlsmrtzycoVLSMRTZYCOeExq"
+			body := []string{"", "o", "oAAAA", "h", "oabcdefghijklmnopqrstuvwxyz234567", "\x00\xff\xff\xff\xff", "o\x00", "yyyy"}[c.Pick(8, "foreign-body")]
+			data := []byte(string(letters[c.Pick(len(letters), "foreign-cmd")]) + body)
+			rep := new(mdns.Msg)
+			rep.SetReply(orig)
+			rep.Id = orig.Id
+			rep.Question = orig.Question
+			if dnsutil.WrapDnsResponse(rep, data, dnsmessage.Type(orig.Question[0].Qtype), Domain) == nil && len(rep.Answer) > 0 {
+				return rep, "well-wrapped-foreign-command"
+			}
+		}
+		m.Answer = nil
+		return m, "no-records"
 	case 0:
 		m.Answer = nil
 		return m, "no-records"
@@ -202,6 +222,119 @@ func genAnswer(c *Chooser, orig *mdns.Msg) (*mdns.Msg, string) {
 	return m, "genuine-type-cut-short"
 }
 
+// lyingAnswer decodes a genuine tunnel answer with the client's own parameters and re-encodes it with
+// field values no honest server sends (sizes far larger than the body, identifiers out of range).
+func lyingAnswer(c *Chooser, dc *sdns.ClientDnsConnection, orig *mdns.Msg) (out *mdns.Msg, kind string) {
+	if dc.Serializer.Downstream.Encoder == nil {
+		return nil, "" // before the downstream codec is settled the client decodes with explicit parameters we do not know
+	}
+	defer func() {
+		// this is the harness using the codec API on a message of unknown kind, not the client under test
+		if p := recover(); p != nil {
+			out, kind = nil, ""
+		}
+	}()
+	resp, err := dc.Serializer.DecodeDnsResponse(orig)
+	if err != nil || resp == nil {
+		return nil, ""
+	}
+	big := []uint32{0, 1, 1 << 20, 1 << 28, 1 << 31, 1<<32 - 1}
+	switch t := resp.(type) {
+	case *commands.TestDownstreamFragmentSizeResponse:
+		t.FragmentSize = big[c.Pick(len(big), "lying-size")]
+		if len(t.Data) > 12 {
+			t.Data = t.Data[:1+c.Pick(12, "lying-body")]
+		}
+		kind = "probe-answer-size-field-lies"
+	case *commands.VersionResponse:
+		t.UserId = uint16(1296 + c.Pick(64000, "lying-uid"))
+		t.ServerVersion = big[c.Pick(len(big), "lying-version")]
+		kind = "version-answer-out-of-range"
+	case *commands.TestDownstreamEncoderResponse:
+		t.Data = make([]byte, c.Pick(3, "lying-len"))
+		kind = "codec-check-answer-short"
+	case *commands.TestUpstreamEncoderResponse:
+		t.Data = make([]byte, c.Pick(3, "lying-len"))
+		kind = "upstream-check-answer-short"
+	case *commands.PacketResponse:
+		if t.Packet != nil {
+			t.Packet.SeqNo = uint16(c.Pick(65536, "lying-seq"))
+		}
+		t.LastAckedSeqNo = uint16(c.Pick(65536, "lying-ack"))
+		kind = "packet-answer-wild-numbers"
+	default:
+		return nil, ""
+	}
+	m, err := dc.Serializer.EncodeDnsResponse(resp, orig)
+	if err != nil || m == nil {
+		return nil, ""
+	}
+	m.Id = orig.Id
+	return m, kind
+}
+
+// c12clientHandshake replaces answers while the client's handshake is running (version, codec and
+// fragment-size probes): the client may give up, but it must survive and do bounded work per answer.
+func c12clientHandshake(r *Run, dc *sdns.ClientDnsConnection, hsDone *bool, hsErr *error) {
+	c := r.Ch
+	nmsg := 1 + c.Pick(12, "messages")
+	hostile := 0
+	var kinds []string
+	var msBefore, msAfter runtime.MemStats
+	pol := &NetPolicy{Whole: true}
+	pol.DgramHook = func(seq int) bool {
+		if hostile >= nmsg {
+			return false
+		}
+		d := r.Net.PeekDgram(seq)
+		if d == nil || d.To.String() != dc.LocalAddr().String() || !c.Chance(1, 4, "replace-answer") {
+			return false
+		}
+		m := new(mdns.Msg)
+		if m.Unpack(d.Data) != nil {
+			return false
+		}
+		var bad *mdns.Msg
+		kind := ""
+		if c.Chance(1, 2, "lying-fields") {
+			bad, kind = lyingAnswer(c, dc, m)
+		}
+		if bad == nil {
+			bad, kind = genAnswer(c, m)
+		}
+		outb, err := bad.Pack()
+		if err != nil {
+			return false
+		}
+		r.Net.TakeDgram(seq)
+		hostile++
+		kinds = append(kinds, kind)
+		r.Count("hostile_answers")
+		r.Count("hostile_handshake_answers")
+		r.AddShape("hs-ans:" + kind)
+		r.Logf("handshake answer replaced by hostile one (%s)", kind)
+		synctest.Wait()
+		runtime.ReadMemStats(&msBefore)
+		r.Net.Inject("udp", d.From, d.To, outb)
+		synctest.Wait() // the client has digested the answer (or parked): bounded work
+		runtime.ReadMemStats(&msAfter)
+		if delta := msAfter.TotalAlloc - msBefore.TotalAlloc; delta > 64<<20 {
+			r.FailSig("unbounded-allocation", "side=client kind="+kind, "one hostile answer during the handshake (%s) made the client allocate %d bytes", kind, delta)
+		}
+		return true
+	}
+	out := r.Drive(pol, func() bool { return *hsDone }, nil, 5*time.Minute, 60*time.Minute)
+	r.Info["message_kinds"] = kinds
+	if out == Aborted {
+		return
+	}
+	r.Info["handshake_outcome"] = fmt.Sprintf("%v done=%v err=%v", out, *hsDone, *hsErr)
+	if hostile > 0 {
+		r.NonTriv = true
+		r.Count("handshakes_survived_hostile_answers")
+	}
+}
+
 func scenarioC12(r *Run) {
 	c := r.Ch
 	addr := fmt.Sprintf("%s:%d", ServerIP, 5353)
@@ -222,8 +355,12 @@ func scenarioC12(r *Run) {
 		hsErr = dc.Handshake()
 		hsDone = true
 	}()
-	side := []string{"server", "server", "client"}[c.Pick(3, "side")]
+	side := []string{"server", "server", "client", "client-handshake"}[c.Pick(4, "side")]
 	r.Info["attacked_side"] = side
+	if side == "client-handshake" {
+		c12clientHandshake(r, dc, &hsDone, &hsErr)
+		return
+	}
 	var captured []string
 	capture := func(seq int) bool {
 		if d := r.Net.PeekDgram(seq); d != nil && d.To.String() == addr && len(captured) < 32 {
@@ -280,18 +417,33 @@ func scenarioC12(r *Run) {
 		if m.Unpack(d.Data) != nil {
 			return false
 		}
-		bad, kind := genAnswer(c, m)
+		var bad *mdns.Msg
+		kind := ""
+		if c.Chance(1, 3, "lying-fields") {
+			bad, kind = lyingAnswer(c, dc, m)
+		}
+		if bad == nil {
+			bad, kind = genAnswer(c, m)
+		}
 		outb, err := bad.Pack()
 		if err != nil {
 			return false
 		}
 		r.Net.TakeDgram(seq)
-		r.Net.Inject("udp", d.From, d.To, outb)
 		hostile++
 		kinds = append(kinds, kind)
 		r.Count("hostile_answers")
 		r.AddShape("ans:" + kind)
 		r.Logf("answer replaced by hostile one (%s)", kind)
+		var b4, aft runtime.MemStats
+		synctest.Wait()
+		runtime.ReadMemStats(&b4)
+		r.Net.Inject("udp", d.From, d.To, outb)
+		synctest.Wait()
+		runtime.ReadMemStats(&aft)
+		if delta := aft.TotalAlloc - b4.TotalAlloc; delta > 64<<20 {
+			r.FailSig("unbounded-allocation", "side=client kind="+kind, "one hostile answer (%s) made the client allocate %d bytes", kind, delta)
+		}
 		return true
 	}
 	var msBefore, msAfter runtime.MemStats
